@@ -56,7 +56,7 @@ func genMustAccept(c *Ctx) ttmpl {
 			case 3:
 				v.sub = []tseg{{kind: sLit, lit: lits[c.Rng.Intn(len(lits))]}}
 			}
-			if k := routeFields[v.field].kind; k == "I" || k == "U" {
+			if k := routeFields[v.field].kind; k == "I" || k == "U" || k == "L" {
 				v.sub = nil // a literal inside the pattern could never convert to a number
 			}
 			t.segs = append(t.segs, v)
@@ -87,7 +87,7 @@ func instantiateStrict(c *Ctx, segs []tseg) []string {
 				sub = []tseg{{kind: sStar}}
 			}
 			segs := instantiateStrict(c, sub)
-			if fi := routeFields[s.field]; fi.kind == "I" || fi.kind == "U" {
+			if fi := routeFields[s.field]; fi.kind == "I" || fi.kind == "U" || fi.kind == "L" {
 				for i := range segs {
 					if sub[min(i, len(sub)-1)].kind != sLit {
 						segs[i] = []string{"0", "7", "42", "12345"}[c.Rng.Intn(4)]
